@@ -250,6 +250,7 @@ class Future:
         function under verification); cancelling the awaiting task cancels the future.  In both cases the future's done
         callback has run by the time the awaiting task continues (asyncio runs callbacks in registration order and the
         task's own wake-up is registered last)."""
+        ghost.futures_awaited = ghost.futures_awaited + 1
         if self.pending:
             try:
                 suspend_point(self)
